@@ -11,6 +11,7 @@ import (
 	"strings"
 	"sync"
 	"sync/atomic"
+	"syscall"
 	"time"
 
 	bolt "go.etcd.io/bbolt"
@@ -369,6 +370,12 @@ func (o OpenOpts) BoltOptions() *bolt.Options {
 		NoStatistics:    o.NoStatistics,
 		Timeout:         time.Duration(o.TimeoutMs) * time.Millisecond,
 	}
+	if o.Logger {
+		bo.Logger = silentLogger{}
+	}
+	if o.MmapPopulate {
+		bo.MmapFlags = syscall.MAP_POPULATE
+	}
 	if o.Freelist == "hashmap" {
 		bo.FreelistType = bolt.FreelistMapType
 	} else {
@@ -397,6 +404,23 @@ func openRecover(path string, bo *bolt.Options) (db *bolt.DB, err error) {
 	}()
 	return bolt.Open(path, 0600, bo)
 }
+
+// silentLogger is a bolt.Logger that discards everything but is not the library's own discard logger, so every API
+// call takes its logging branch. Fatal/Panic keep their contract (they are only used on unrecoverable paths).
+type silentLogger struct{}
+
+func (silentLogger) Debug(v ...interface{})                   {}
+func (silentLogger) Debugf(format string, v ...interface{})   {}
+func (silentLogger) Error(v ...interface{})                   {}
+func (silentLogger) Errorf(format string, v ...interface{})   {}
+func (silentLogger) Info(v ...interface{})                    {}
+func (silentLogger) Infof(format string, v ...interface{})    {}
+func (silentLogger) Warning(v ...interface{})                 {}
+func (silentLogger) Warningf(format string, v ...interface{}) {}
+func (silentLogger) Fatal(v ...interface{})                   { panic(fmt.Sprint(v...)) }
+func (silentLogger) Fatalf(format string, v ...interface{})   { panic(fmt.Sprintf(format, v...)) }
+func (silentLogger) Panic(v ...interface{})                   { panic(fmt.Sprint(v...)) }
+func (silentLogger) Panicf(format string, v ...interface{})   { panic(fmt.Sprintf(format, v...)) }
 
 // Open opens the database file with the given options. A panic inside bolt.Open is returned as *PanicError.
 func (e *Env) Open(o OpenOpts) error {
